@@ -234,6 +234,18 @@ def vf_angle_congruent(eng, st, fr, ins, a):
     return _angle_rel(eng, st, a, False)
 
 
+@model("vf_havoc")
+def vf_havoc(eng, st, fr, ins, a):
+    """k-th havocked loop-carried value of the loops summarised so far on this path (concrete runs: NaN)"""
+    if eng.assignment is not None:
+        return math.nan
+    hv = st.user.get("havoc", [])
+    k = a[0]
+    if k >= len(hv):
+        raise Inconclusive("vf_havoc(%d): only %d havocked loop values" % (k, len(hv)))
+    return hv[k]
+
+
 @model("vf_symbolic")
 def vf_symbolic(eng, st, fr, ins, a):
     return 0 if eng.assignment is not None else 1
